@@ -53,7 +53,7 @@ pub fn vname(v: Validate) -> &'static str {
 /// Deserialize `bytes` as a `T` under all monitors; returns the value (if any) and the probe.
 pub fn probe_deser<T: CanonicalDeserialize>(bytes: &[u8], c: Compress, v: Validate, advertised: usize) -> (Option<T>, Probe) {
     let mut rd = CountingReader::new(bytes, advertised);
-    let res = monitor::guard(|| alloc::tracked(|| T::deserialize_with_mode(&mut rd, c, v)));
+    let res = monitor::guard(|| alloc::tracked(|| crate::api::de::<T, _>(&mut rd, c, v)));
     match res {
         Ok((r, st)) => {
             let (val, outcome) = match r {
